@@ -206,8 +206,10 @@ def reference(c, est, data_override=None):
         Rr = [c["radii"][i] for i, _ in wins]
         M, CNT = R.multi_cooc(docs, n, wins, Rr, P)
         out.M, out.CNT, out.n_rows, out.seqs, out.P, out.radii, out.multi = M, CNT, n, docs, P, Rr, (docs, Rr)
-        # note: the multiset window has one radius for all tokens; whether the nullified mask's own row
-        # must vanish is C14's question, not part of the count definition judged by C03
+        if c["nullify"] and mi is not None:
+            # a nullified mask contributes nothing, neither as context nor as a row of its own (C14)
+            M[mi, :] = 0
+            CNT[mi, :] = 0
         return out
     seqs = [[idx(t) for t in d if idx(t) is not None] for d in src["docs"]]
     times = None
